@@ -115,7 +115,23 @@ def run(ctx, module, weights, tags, n_quick=250, len_quick=60, n_thorough=4000, 
             zn, zdis, zmon, zcr = hist.run_zst_pass(ctx, hs, exez, model)
             zres = (exez, zn, zdis, zmon, zcr)
             configs.append("debug, zero-sized payload type (%d histories with sized constructors only; projected comparison)" % zn)
-            ctx.oblige("corr:hist-model-vs-impl-zst", not zdis and not zcr, "%d projected disagreements, %d crashes over %d histories" % (len(zdis), len(zcr), zn))
+    # differences that concern another property's subject do not break THIS property's tie (hist.relevant); they are
+    # counted in the evidence.  Crashes of the harness process always count.
+    outside = 0
+    for _, _, r in results:
+        keep = []
+        for d in r.disagreements:
+            if hist.relevant(ctx.prop, hs[d[0]], d[1], d[2], d[3]):
+                keep.append(d)
+            else:
+                outside += 1
+        r.disagreements = keep
+    if zres:
+        zkeep = [d for d in zres[2] if hist.relevant(ctx.prop, hs[d[0]], d[1], d[2], d[3])]
+        outside += len(zres[2]) - len(zkeep)
+        zres = (zres[0], zres[1], zkeep, zres[3], zres[4])
+        ctx.oblige("corr:hist-model-vs-impl-zst", not zkeep and not zres[4], "%d projected disagreements, %d crashes over %d histories" % (len(zkeep), len(zres[4]), zres[1]))
+    ctx.coverage["disagreements_outside_this_property_slice"] = outside
     agreed = all(not r.disagreements and not r.crashes for _, _, r in results)
     if search_only:
         # the caller uses the histories as a failing-input search for its own monitors only
